@@ -377,6 +377,8 @@ def bounded(pr):
         if name in ('3SGB-subset', '3SGB', '1FTJ-Chain-A'):
             ev += 1
             classes.add('own hydrogens')
+            # the claim is for amino-acid structures: hetero records (ligands, ions - their typing looks at attached hydrogens) are left out
+            base = [l for l in base if not l.startswith('HETATM')]
             mol = native.run_text(base)
             conf = mol.conformations[mol.conformation_names[0]]
             # insert the program's own hydrogens into the ORIGINAL records (right after their heavy atom)
